@@ -437,7 +437,7 @@ def budget_for(src, name, fmt, api, data0):
     if key not in _BASE:
         rec = run_load(name, fmt, api, data0)
         _BASE[key] = rec["steps"]
-    return max(20 * _BASE[key], 2_000_000)
+    return max(20 * _BASE[key], 500_000)
 
 
 def _baseline_task(task):
